@@ -21,7 +21,7 @@ RULE = ("Hypothesis generates noisy determined networks with every cluster type 
 ASSUMPTIONS = ["'approximate coordinates updated from the adjustment' is read as: exported coordinates of adjusted points equal the "
                "final linearisation point of the run (the <approximate> block of the same run's XML, printed with 6 decimals)",
                "values are compared after unit conversion (d-m-s <-> gon; arc seconds <-> cc) with 1e-9 relative tolerance"]
-REQUIRED_CLASSES = ["with_dh", "with_extern", "with_dist", "with_cov_band", "deg_input", "round3", "export_alone", "with_dist_and_stdev"]
+REQUIRED_CLASSES = ["with_dh", "with_extern", "with_dist", "with_cov_band", "deg_input", "round3", "export_alone", "with_dist_and_stdev", "implicit_stdev"]
 
 
 @st.composite
@@ -79,6 +79,8 @@ def case(draw):
             net["params"]["latitude"] = draw(st.sampled_from(["55.5", "33.3333", "-40.25", "99", "49-30-15.5", "0.5"]))
         if k != 0:
             net["params"]["ellipsoid"] = draw(st.sampled_from(["wgs84", "bessel", "grs80", "krassovski"]))
+    if draw(st.integers(0, 3)) == 0:
+        gen_net.apply_implicit_stdevs(draw, net)
     return {"net": net, "alg": draw(st.sampled_from(ALGS + [None])), "mode": mode, "alone": draw(st.integers(0, 2))}
 
 
@@ -109,8 +111,12 @@ def status_of(p):
     return s
 
 
-def obs_semantic(cl, o, m0apr):
-    """canonical description of one observation element of a parsed GKF"""
+PO_ATTR = {"direction": "direction-stdev", "angle": "angle-stdev", "z-angle": "zenith-angle-stdev", "azimuth": "azimuth-stdev"}
+
+
+def obs_semantic(cl, o, m0apr, po=None):
+    """canonical description of one observation element of a parsed GKF (po: attributes of <points-observations>, the
+    documented implicit standard deviations)"""
     d = {"tag": o["tag"]}
     for k in ("from", "to", "bs", "fs", "id"):
         if k in o:
@@ -135,6 +141,15 @@ def obs_semantic(cl, o, m0apr):
             sd = sd / 0.324
     elif "dist" in o:
         sd = m0apr * math.sqrt(fl(o["dist"]))
+    elif po and cl["k"] == "obs" and cl.get("cov") is None:
+        if ang and PO_ATTR[o["tag"]] in po:
+            sd = fl(po[PO_ATTR[o["tag"]]])
+            if d.get("deg"):
+                sd = sd / 0.324
+        elif o["tag"] in ("distance", "s-distance") and "distance-stdev" in po:
+            abc = [fl(t) for t in po["distance-stdev"].split()] + [0.0, 1.0]
+            a_, b_, c_ = abc[0], (abc[1] if len(po["distance-stdev"].split()) > 1 else 0.0), (abc[2] if len(po["distance-stdev"].split()) > 2 else 1.0)
+            sd = a_ + b_ * (d["val"] / 1000.0) ** c_
     d["sd"] = sd
     fdh = o.get("from_dh", cl["attrs"].get("from_dh") if cl["k"] == "obs" else None)
     d["from_dh"] = fl(fdh) if fdh is not None else 0.0
@@ -222,7 +237,7 @@ def compare_inputs(tag, A, B, stats, strict_coords=False, cmd_alg=None):
             continue
         sds_a, sds_b = [], []
         for oa, ob in zip(ca["obs"], cb["obs"]):
-            sa, sb = obs_semantic(ca, oa, m0), obs_semantic(cb, ob, m0)
+            sa, sb = obs_semantic(ca, oa, m0, A.get("po_attrs")), obs_semantic(cb, ob, m0, B.get("po_attrs"))
             for k in ("tag", "from", "to", "bs", "fs", "id"):
                 if sa.get(k) != sb.get(k):
                     fails.append("%s.obs_%s: cluster %d %s vs %s" % (tag, k, ci, sa.get(k), sb.get(k)))
@@ -332,6 +347,8 @@ def oracle(c, stats):
         feats.append("with_dist_and_stdev")
     if any(cl.get("cov") and cl["cov"]["band"] > 0 for cl in net["clusters"]):
         feats.append("with_cov_band")
+    if net.get("implicit"):
+        feats.append("implicit_stdev")
     if net.get("deg"):
         feats.append("deg_input")
     stats.label(*feats) if feats else None
